@@ -10,17 +10,52 @@ from . import core
 from .core import Engine, set_engine, Unsupported, Diverged
 
 MAX_CANDIDATES = 4
+XCHECK = int(os.environ.get("VERIF_CVC5_SAMPLES", "3"))      # obligations per job re-decided by cvc5
 
 
 class JobResult(dict):
     pass
 
 
+def cvc5_recheck(solver, negated_ob, timeout_ms=8000):
+    """re-decide `assertions /\ not ob` with cvc5 (independent solver).
+    -> 'unsat' | 'sat' | 'unknown' | 'unavailable'"""
+    try:
+        import cvc5
+    except Exception:
+        return "unavailable"
+    try:
+        solver.push()
+        solver.add(negated_ob)
+        txt = "(set-logic ALL)\n" + solver.to_smt2()
+        solver.pop()
+        slv = cvc5.Solver()
+        slv.setOption("tlimit-per", str(timeout_ms))
+        p = cvc5.InputParser(slv)
+        p.setStringInput(cvc5.InputLanguage.SMT_LIB_2_6, txt, "q")
+        sm = p.getSymbolManager()
+        res = "unknown"
+        while True:
+            cmd = p.nextCommand()
+            if cmd.isNull():
+                break
+            out = str(cmd.invoke(slv, sm)).strip()
+            if out in ("sat", "unsat", "unknown"):
+                res = out
+        return res
+    except Exception:
+        try:
+            solver.pop()
+        except Exception:
+            pass
+        return "unknown"
+
+
 def new_result(name):
     return JobResult(
         name=name, paths=0, aborts=0, unsupported=0, cut=0, flip_unknown=0,
         complete=True, obligations=0, discharged=0, trivially=0, unknown=0,
-        nontrivial_paths=0, solver_queries=0, solver_s=0.0, wall_s=0.0,
+        nontrivial_paths=0, solver_queries=0, solver_s=0.0, wall_s=0.0, cvc5_agree=0, cvc5_disagree=0, cvc5_inconclusive=0,
         branches=0, folds=0, realisations=0, candidates=[], concretised=[],
         entered={}, scenarios={}, samples=[], error=None, bounds={},
         exc_paths=0, notes=[])
@@ -92,6 +127,16 @@ def sym_run(name, make, pre, body, post, case_of, scenarios=None,
                 r = e.check(z3.Not(ob))
                 if r == z3.unsat:
                     res["discharged"] += 1
+                    n_x = res["cvc5_agree"] + res["cvc5_disagree"] + res["cvc5_inconclusive"]
+                    if n_x < XCHECK and (res["obligations"] % 7 == 1):
+                        v = cvc5_recheck(e.s, z3.Not(ob))
+                        if v == "unsat":
+                            res["cvc5_agree"] += 1
+                        elif v == "sat":
+                            res["cvc5_disagree"] += 1
+                            res["error"] = "z3/cvc5 disagreement on obligation %r" % (label,)
+                        else:
+                            res["cvc5_inconclusive"] += 1
                 elif r == z3.sat:
                     vals = e.model_of(e.s.model())
                     _cand(res, seen_labels, label, vals, case_of, inp, "solver-model")
@@ -155,7 +200,7 @@ def merge(results):
         for k in ("paths", "aborts", "unsupported", "cut", "flip_unknown",
                   "obligations", "discharged", "trivially", "unknown",
                   "nontrivial_paths", "solver_queries", "branches", "folds",
-                  "realisations", "exc_paths"):
+                  "realisations", "exc_paths", "cvc5_agree", "cvc5_disagree", "cvc5_inconclusive"):
             tot[k] += r.get(k, 0)
         tot["solver_s"] += r.get("solver_s", 0.0)
         tot["complete"] = tot["complete"] and r.get("complete", False)
